@@ -97,6 +97,24 @@ type vf15Link struct {
 	tampered  bool      // the response was modified / the secret is wrong
 	wrote     []byte    // payload the client application has written
 	ctlNext   int       // first packet whose control effect has not been checked yet
+	samples   []int     // when the length distribution is steered: the lengths the next Write can sample
+}
+
+// steer narrows the client's length distribution to {v, v+1} for the next
+// Write (in-package: ssConn.lenDist) and returns the function that restores it.
+func (l *vf15Link) steer(v int, seed uint64) func() {
+	ss, ok := l.ep.Conn().(*ssConn)
+	if !ok || v < minLenDistLength || v+1 > maxLenDistLength {
+		return func() {}
+	}
+	sd, err := drbg.SeedFromBytes(vf15Fill(seed, 0x57ee, drbg.SeedLength))
+	if err != nil {
+		return func() {}
+	}
+	old := ss.lenDist
+	ss.lenDist = probdist.New(sd, v, v+1, true)
+	l.samples = []int{v, v + 1}
+	return func() { ss.lenDist, l.samples = old, nil }
 }
 
 // vf15Dial starts the real client: ParseArgs + Dial through the public factory
@@ -362,6 +380,21 @@ func (l *vf15Link) clientWrite(b []byte, chunks []int) string {
 	}
 	l.wrote = append(l.wrote, b...)
 	ct := l.take()
+	if len(l.samples) > 0 {
+		// the burst must end `sampled length` bytes into a 1448-byte segment; where
+		// fewer than 21 bytes were missing, one header short is the deployed behaviour
+		full := (len(b)+maxPayloadLength-1)/maxPayloadLength*pktOverhead + len(b)
+		end, ok := len(ct)%maxSegmentLength, false
+		for _, v := range l.samples {
+			gap := ((v-full)%maxSegmentLength + maxSegmentLength) % maxSegmentLength
+			if end == v%maxSegmentLength || gap < pktOverhead && end == (v-pktOverhead)%maxSegmentLength {
+				ok = true
+			}
+		}
+		if !ok {
+			return fmt.Sprintf("VIOL[c15-padburst-length]: client Write(%d bytes) = %d bytes of packets, padded to a burst of %d bytes that ends %d bytes into a segment; the length distribution could only sample %v", len(b), full, len(ct), end, l.samples)
+		}
+	}
 	for _, c := range chunks {
 		if c <= 0 || len(ct) == 0 {
 			continue
